@@ -17,6 +17,9 @@ def run(chk, repo):
     )
     chk.trusted = ["spec/layout_reference.json (regression oracle, see DESIGN E2)", "model of construct primitives (vlib/layout.py)"]
     chk.rule("C16-V1", "layout of every non-padding volume-directory field == reference; records are 360 bytes", 50)
+    from .common_rules import declared_multiplicities
+    if not declared_multiplicities(chk, L, "C16-V6", ("volume",)):
+        return
     leaves, end, _ = L.get("volume")
     chk.count("layout_leaves", len(leaves))
     chk.count("programs", 1)
